@@ -178,7 +178,8 @@ def matchT (t : TupleRec) (object relation user : String) : Bool :=
       else true)
 
 /-- The places of memory.go where today's source differs from the documented filter.  Each switch is
-read off the source by the extractor (`Gen.StoreRead`); `asWritten` is the unchanged tree. -/
+read off the source by the extractor (`Gen.StoreRead`); `beforeFix` is the tree as first seen (snapshot 469a15f,
+before commit 5575d87 repaired `rutCondFirst` and `rutBreakOnMatch`). -/
 structure MemShape where
   /-- `read`: the `Object == "" && Relation == "" && User == ""` shortcut copies every tuple without looking at `Conditions` -/
   readShortcutSkipsConds : Bool
@@ -195,8 +196,9 @@ structure MemShape where
   rswuEmptyIdsMeansAll : Bool
 deriving DecidableEq, Repr, Inhabited
 
-def MemShape.asWritten : MemShape := ⟨true, false, false, true, false, false⟩
-/-- memory.go after the `F4` repairs: every switch on the documented side -/
+/-- memory.go of snapshot 469a15f (before the F4a/F4b repair 5575d87) -/
+def MemShape.beforeFix : MemShape := ⟨true, false, false, true, false, false⟩
+/-- memory.go with every switch on the documented side -/
 def MemShape.fixed : MemShape := ⟨false, true, true, false, true, false⟩
 
 /-- `MemoryBackend.read` without pagination (`Read`) -/
